@@ -160,6 +160,128 @@ func (s *session) mns(r *run, res, a string, x, v int) {
 	s.emit(r, fmt.Sprintf("mns %s %s %d %d", res, a, x, v))
 }
 
+func (s *session) weakAssign(r *run, res, a string, d, sr int) {
+	g := s.regs[a].Clone()
+	s.u.WeakAssign(g, d, sr)
+	s.regs[res] = g
+	s.emit(r, fmt.Sprintf("wa %s %s %d %d", res, a, d, sr))
+}
+
+func fieldArg(f int) (string, string) {
+	if f < 0 {
+		return "", "-"
+	}
+	return fmt.Sprintf("f%d", f), fmt.Sprint(f)
+}
+
+func (s *session) storeField(r *run, res, a string, addr, val, f int) {
+	g := s.regs[a].Clone()
+	name, arg := fieldArg(f)
+	s.u.StoreField(g, addr, val, name)
+	s.regs[res] = g
+	s.emit(r, fmt.Sprintf("store %s %s %d %d %s", res, a, addr, val, arg))
+}
+
+func (s *session) loadField(r *run, res, a string, val, addr, op, f int) {
+	g := s.regs[a].Clone()
+	name, arg := fieldArg(f)
+	s.u.LoadField(g, val, addr, fmt.Sprintf("op%d", op), name)
+	s.regs[res] = g
+	s.emit(r, fmt.Sprintf("load %s %s %d %d %d %s", res, a, val, addr, op, arg))
+}
+
+func (s *session) callUnknown(r *run, res, a string, args []int) {
+	g := s.regs[a].Clone()
+	s.u.CallUnknown(g, args)
+	s.regs[res] = g
+	var parts []string
+	for _, x := range args {
+		parts = append(parts, fmt.Sprint(x))
+	}
+	s.emit(r, fmt.Sprintf("callunknown %s %s %s", res, a, strings.Join(parts, ",")))
+}
+
+// battery2: the composite operations on g and on w ≤ g (same arguments, in the same order on both
+// sides: they share and extend one node group). Arguments are chosen with disjoint subnode trees:
+// when the destination tree overlaps the source tree the Go code reads edges it is adding, and its
+// result depends on the map iteration order.
+func (s *session) battery2(r *run, rnd interface{ Intn(int) int }, g, w *gen.EG, subs []gen.SubRel) {
+	n := g.N
+	// prefer nodes that point to something
+	var withOut []int
+	for a := 0; a < n; a++ {
+		if len(g.Pointees(a)) > 0 {
+			withOut = append(withOut, a)
+		}
+	}
+	pick := func() int {
+		if len(withOut) > 0 && rnd.Intn(4) != 0 {
+			return withOut[rnd.Intn(len(withOut))]
+		}
+		return rnd.Intn(n)
+	}
+	for i := 0; i < 2; i++ {
+		d, sr := rnd.Intn(n), pick()
+		if gen.Root(subs, d) == gen.Root(subs, sr) {
+			continue
+		}
+		gn, wn := fmt.Sprintf("gwa%d", i), fmt.Sprintf("wwa%d", i)
+		s.weakAssign(r, gn, "g", d, sr)
+		s.weakAssign(r, wn, "w", d, sr)
+		s.show(r, gn)
+		s.show(r, wn)
+		s.le(r, wn, gn, fmt.Sprintf("WeakAssign(%d,%d) monotone", d, sr))
+		s.le(r, "g", gn, "WeakAssign extensive")
+		r.rep.Count("op:weakAssign")
+	}
+	okArgs := func(addr, val int) bool {
+		roots := map[int]bool{gen.Root(subs, val): true}
+		for _, eg := range []*gen.EG{g, w} {
+			seen := map[int]bool{}
+			for _, p := range eg.Pointees(addr) {
+				rt := gen.Root(subs, p)
+				if roots[rt] || seen[rt] {
+					return false
+				}
+				seen[rt] = true
+			}
+		}
+		return true
+	}
+	for i := 0; i < 2; i++ {
+		addr, val, f := pick(), pick(), rnd.Intn(3)-1
+		if !okArgs(addr, val) {
+			continue
+		}
+		gn, wn := fmt.Sprintf("gst%d", i), fmt.Sprintf("wst%d", i)
+		s.storeField(r, gn, "g", addr, val, f)
+		s.storeField(r, wn, "w", addr, val, f)
+		s.show(r, gn)
+		s.show(r, wn)
+		s.le(r, wn, gn, fmt.Sprintf("StoreField(%d,%d,%d) monotone", addr, val, f))
+		r.rep.Count(fmt.Sprintf("op:storeField,field=%v,pointees=%d", f >= 0, len(g.Pointees(addr))))
+	}
+	for i := 0; i < 2; i++ {
+		addr, val, f, op := pick(), rnd.Intn(n), rnd.Intn(3)-1, rnd.Intn(2)
+		if !okArgs(addr, val) {
+			continue
+		}
+		gn, wn := fmt.Sprintf("gld%d", i), fmt.Sprintf("wld%d", i)
+		s.loadField(r, gn, "g", val, addr, op, f)
+		s.loadField(r, wn, "w", val, addr, op, f)
+		s.show(r, gn)
+		s.show(r, wn)
+		s.le(r, wn, gn, fmt.Sprintf("LoadField(%d,%d,op%d,%d) monotone", val, addr, op, f))
+		r.rep.Count(fmt.Sprintf("op:loadField,field=%v,pointees=%d", f >= 0, len(g.Pointees(addr))))
+	}
+	args := []int{rnd.Intn(n), rnd.Intn(n)}
+	s.callUnknown(r, "gcu", "g", args)
+	s.callUnknown(r, "wcu", "w", args)
+	s.show(r, "gcu")
+	s.le(r, "wcu", "gcu", "CallUnknown monotone")
+	r.rep.Count("op:callUnknown")
+}
+
 func (s *session) chk(r *run, name string, want string) {
 	s.emit(r, "chk "+name)
 	r.expects = append(r.expects, expectation{s, "chk " + name, want, false})
@@ -315,9 +437,17 @@ func partA(rep *lib.Report) {
 			size = 8 + rnd.Intn(8)
 		}
 		kinds := gen.RandKinds(rnd, size)
+		subs := gen.RandSubs(rnd, kinds)
 		u := escape.VerifNewUniverse(kinds)
 		s := r.newSession(fmt.Sprintf("A%d", i), u)
+		for _, sr := range subs {
+			u.AddFieldSubnode(sr.Parent, fmt.Sprintf("f%d", sr.Field), sr.Child)
+			s.emit(r, fmt.Sprintf("sub %d %d %d", sr.Parent, sr.Field, sr.Child))
+		}
 		g, h, k := gen.RandWF(rnd, kinds), gen.RandWF(rnd, kinds), gen.RandWF(rnd, kinds)
+		g.FixSubFlags(rnd, subs)
+		h.FixSubFlags(rnd, subs)
+		k.FixSubFlags(rnd, subs)
 		if rnd.Intn(4) == 0 {
 			h = g.Weaken(rnd) // comparable pairs
 		}
@@ -341,6 +471,8 @@ func partA(rep *lib.Report) {
 		s.def(r, "k", k)
 		s.def(r, "w", w)
 		s.battery(r, rnd, func(x int) bool { return g.Dom[x] })
+		s.battery2(r, rnd, g, w, subs)
+		rep.Count(fmt.Sprintf("A:subnode-relations<=%d", bucket(len(subs))))
 		key := g.Line("g") + h.Line("h") + k.Line("k") + w.Line("w")
 		if g.Edges()+h.Edges() == 0 {
 			key = ""
